@@ -42,6 +42,7 @@ type Program struct {
 	alwaysStatus map[*ssa.Function]bool
 	Env          []string
 	Opt          loadOptions
+	Canonical    []string // identifiers rewritten to their canonical names (names.go)
 	Overlay      map[string][]byte
 	bceDone      bool
 	tokCache     *tokenAnalysis
